@@ -306,3 +306,23 @@ for _lab, _pid in ((["C03:"], "C03"), (["C02:", "REF:"], "C02")):
 CHECKS["C18"]["runs"] += [dict(rd(6, 2, M=36, labels=["C18:"], covers=["ran"], harness="VerifAsmDiff", tiers=["quick"], extra={"LITCAP": 1}), tags="verif", native_configs=[["verif", None]], maxdec=4000)]
 CHECKS["C18"]["runs"] += [dict(rd(6, 2, M=260, labels=["C18:"], covers=["ran"], harness="VerifAsmDiff", tiers=["thorough"]), tags="verif", native_configs=[["verif", None]], maxdec=4000, maxconc=600)]
 CHECKS["C18"]["runs"] += [dict(rd(1, 3, M=16, labels=["C18:"], covers=["ran"], harness="VerifAsmDiff", tiers=["thorough"]), tags="verif", native_configs=[["verif", None]], maxdec=4000, maxconc=600)]
+
+# context 94: far back-references (distance symbols 28/29 with symbolic extra bits) before and after the
+# history slide, across the end of the output window, and around distance == bytes produced
+FAR94 = [(40000, 3, 29, 7942, 8191), (40000, 258, 29, 8100, 8191), (65436, 258, 29, 8000, 8191), (65736, 3, 29, 7942, 8191),
+         (65736, 258, 29, 8100, 8191), (30000, 3, 29, 5303, 5543), (65736, 3, 28, 3900, 4095), (98204, 258, 29, 8100, 8191),
+         (32778, 3, 29, 8150, 8191), (32760, 3, 29, 8150, 8191)]
+def far94(harness, labels, P, ml, ds, lo, hi, picks=None, tiers=("quick", "thorough")):
+    r = rd(94, 2, M=300, K=P, labels=labels, harness=harness, tiers=tiers, extra={"ML": ml, "DS": ds, "XLO": lo, "XHI": hi})
+    r["maxdec"] = 4000
+    if picks:
+        r["picks"].update(picks)
+    return r
+CHECKS["C02"]["runs"] += [far94("VerifRdOracle", ["C02:", "REF:"], *f) for f in FAR94]
+CHECKS["C03"]["runs"] += [far94("VerifRdOracle", ["C03:"], *f) for f in FAR94[5:6] + FAR94[8:]]
+CHECKS["C04"]["runs"] += [far94("VerifRdChunk", ["C04:"], *f, picks={"chunk": ch, "bufio": b}) for f in (FAR94[2], FAR94[4]) for (ch, b) in [(0, 0), (3, 1)]]
+# context 93: a stored block copied across the end of the output window
+CHECKS["C02"]["runs"] += [rd(93, n, K=k, labels=["C02:", "REF:"]) for (n, k) in [(4, 2), (6, 0), (3, 3), (5, 6)]]
+CHECKS["C04"]["runs"] += [rdp("VerifRdChunk", 93, n, {"chunk": ch, "bufio": b}, ["C04:"], ["ran"], extra={"K": k}) for (n, k, ch, b) in [(4, 2, 0, 0), (6, 3, 3, 1)]]
+CHECKS["C05"]["runs"] += [rdp("VerifRdPos", 93, 4, {"src": k, "ctor": ct}, ["C05:"], ["eof"], extra={"K": 2}) for (k, ct) in [(0, 1), (2, 0)]]
+CHECKS["C11"]["runs"] += [rdp("VerifRdGate", 93, 4, {"bufio": b}, ["C11:"], [], extra={"K": 2}) for b in (0, 2)]
